@@ -65,7 +65,27 @@ pub mod factory {
 }
 
 pub mod target {
-    use soroban_sdk::{contract, contractimpl, contracttype, Env, Symbol, Val, Vec};
+    use soroban_sdk::auth::{Context, CustomAccountInterface};
+    use soroban_sdk::crypto::Hash;
+    use soroban_sdk::{contract, contracterror, contractimpl, contracttype, Env, Symbol, Val, Vec};
+
+    #[contracterror]
+    #[derive(Copy, Clone, Debug, Eq, PartialEq)]
+    #[repr(u32)]
+    pub enum TargetError {
+        Never = 1,
+    }
+
+    /// The probe target can also act as a principal (so that one address can be both the
+    /// authorising party and the contract being called).
+    #[contractimpl]
+    impl CustomAccountInterface for ProbeTarget {
+        type Signature = Val;
+        type Error = TargetError;
+        fn __check_auth(_env: Env, _signature_payload: Hash<32>, _signatures: Val, _auth_contexts: Vec<Context>) -> Result<(), TargetError> {
+            Ok(())
+        }
+    }
 
     #[contracttype]
     pub enum TKey {
